@@ -23,6 +23,11 @@ NAMES = ["a", "b", "ab", "abc", "src", "build", "x.o", "sp ace", "é", "日本",
          "%41", "a.b", "mod", "sub", "tab\tx", 'q"uote', "back\\slash", "~", "*", "inner", "nl\nx", "cr\rx", ".hidden", "A"]
 LINEBREAKS = set("\n\r\x0b\x0c\x1c\x1d\x1e\x85  ")
 KINDS = ("git", "git", "git", "hg", "jj", "pijul")
+#: the key pattern vcs.py hands to `git config --get-regexp` (what the model's second raw output is the answer to)
+GITMODULES_KEY_PATTERN = r"\.path$"
+#: submodule names (`git submodule add --name`; by default the path): dots, blanks, slashes, endings that look like a key
+SUB_NAMES = ["lib.v2", "vendor/lib.v2", "jquery.js", "foo-1.2", "my sub", "a.path", "x.path.y", "UP.per", "é.ü", "path", ".", "a.b.c.d",
+             "n.url", "submodule.x", "tab\tname", 'q"uote', "back\\slash", "[sect]", "k=v", "#hash", "trailing.", ".leading"]
 CWDS = ("root", "root", "top", "sibling", "inside")
 ROOTSP = ("abs", "rel", "rel", "dotrel", "abs/", "absdot")
 FORMS = ("walk", "walk", "walk", "join", "abs", "relcwd", "noisy", "updown")
@@ -129,8 +134,10 @@ class VcsCannedStream(Stream):
             "spelt absolute, relative, './rel', with trailing slash; is_ignored and is_submodule for query paths spelt as the walk "
             "does, as a string join, absolute, relative to the process, with './' '//' noise, with '..', the root itself, outside the "
             "root: real class vs model (driver op vcsq, every query) vs generator ground truth (queries that denote a normal path "
-            "below the root, not below a listed directory); Hg/Jujutsu/Pijul only ever on canned outputs; non-trivial = some query "
-            "ignored and some not")
+            "below the root, not below a listed directory); Hg/Jujutsu/Pijul only ever on canned outputs; the emulated `git config "
+            "--get-regexp PATTERN` answers with the keys PATTERN finds among submodule.<name>.path / .url / .branch, the names being m0.., the "
+            "path itself, or one of 22 with dots, blanks, slashes, quotes, `.path` / `.url` endings (the model is fed the answer to the pattern "
+            "`\\.path$`); non-trivial = some query ignored and some not")
 
     def __init__(self):
         self._facts = {}
@@ -165,7 +172,13 @@ class VcsCannedStream(Stream):
                 # `git config -z` ends every value with NUL, so a path may contain line breaks of any kind
                 spool = pool if rng.random() < 0.3 else ([x for x in pool if not has_linebreak([x])] or ["mod"])
                 for i in range(rng.randint(1, 3)):
-                    subs.append(["m%d" % i, rand_comps(rng, spool, 2), rng.choice(("noslash", "noslash", "slash", "dot"))])
+                    comps = rand_comps(rng, spool, 2)
+                    # the name of a submodule is any text without a line feed: by default its path (`git submodule add URL PATH`),
+                    # otherwise what `--name` said; dots, blanks, slashes, a name ending in `.path` or `.url`
+                    k = rng.random()
+                    name = ("m%d" % i if k < 0.3 else "/".join(comps) if k < 0.6 and not has_linebreak(comps) else
+                            rng.choice(SUB_NAMES) + ("" if i == 0 else "-%d" % i))
+                    subs.append([name, comps, rng.choice(("noslash", "noslash", "slash", "dot"))])
                 if rng.random() < 0.3:
                     # the directory the process is in has an entry named like a directory of the project that is a symbolic
                     # link to a name that is a submodule path of the project
@@ -215,8 +228,30 @@ class VcsCannedStream(Stream):
             raw1 = "".join(x + "\n" for x in items)
         raw2 = ""
         if kind == "git" and not below:
-            raw2 = "".join("submodule.%s.path\n%s\0" % (n, spell_entry(c, True, how)) for n, c, how in case["subs"])
+            raw2 = VcsCannedStream._config(case, GITMODULES_KEY_PATTERN)
         return raw1, raw2
+
+    @staticmethod
+    def _gitmodules(case):
+        """the (key, value) pairs of the emulated .gitmodules, in file order: path, url and sometimes branch / update of every submodule"""
+        out = []
+        for i, (n, c, how) in enumerate(case["subs"]):
+            out.append(("submodule.%s.path" % n, spell_entry(c, True, how)))
+            out.append(("submodule.%s.url" % n, "https://example.com/%d/some.path" % i))
+            if i % 2:
+                out.append(("submodule.%s.branch" % n, "main"))
+        return out
+
+    @staticmethod
+    def _config(case, pattern):
+        """what `git config -z --file .gitmodules --get-regexp PATTERN` prints: the pairs whose key the pattern finds (Git: POSIX
+        extended regular expression, searched anywhere in the key); None if the pattern does not compile"""
+        import re
+        try:
+            rx = re.compile(pattern)
+        except re.error:
+            return None
+        return "".join("%s\n%s\0" % (k, v) for k, v in VcsCannedStream._gitmodules(case) if rx.search(k))
 
     def _fake(self, case, lay, calls):
         kind = case["kind"]
@@ -238,6 +273,13 @@ class VcsCannedStream(Stream):
                     raw1 = raw1.replace("\0", "\n")
                 return subprocess.CompletedProcess(command, 0, raw1.encode("utf-8"), b"")
             if kind == "git" and "config" in args:
+                if "--get-regexp" in args and args.index("--get-regexp") + 1 < len(args):
+                    # the emulated program answers the question it is asked: the keys the given pattern finds
+                    raw2 = self._config(case, args[args.index("--get-regexp") + 1])
+                    if raw2 is None:
+                        return subprocess.CompletedProcess(command, 6, b"", b"error: invalid key pattern")
+                elif "--list" in args or "-l" in args:
+                    raw2 = self._config(case, "")
                 if "-z" not in args:
                     raw2 = raw2.replace("\n", " ").replace("\0", "\n")
                 return subprocess.CompletedProcess(command, 0 if raw2 else 1, raw2.encode("utf-8"), b"")
@@ -368,6 +410,135 @@ def _git(args, cwd, input=None, global_config="/dev/null"):
                                "GIT_AUTHOR_NAME": "t", "GIT_AUTHOR_EMAIL": "t@e", "GIT_COMMITTER_NAME": "t", "GIT_COMMITTER_EMAIL": "t@e"})
 
 
+# -- several submodules per repository ----------------------------------------------------------------------------
+
+#: submodule paths: one to three components, with dots, blanks, dashes, non-ASCII; none is matched by an ignore pattern of the
+#: generators, none lies below another
+SUB_PATHS = ["vendor/lib.v2", "jquery.js", "deps/foo-1.2", "third party/x y", "a.b/c.d", "ext/path", "v1.2.3", "plug.in/core.d",
+             "Ünï/cö.dé", "vendor/plain", "sm", "ext/deep/er.mod"]
+#: names given with `git submodule add --name` (otherwise the name is the path)
+SUB_ALT_NAMES = ["libv2", "my.name", "name with space", "x.path", "dotted.name.v2", "UP.per/low.er", "n.url", "plain"]
+#: content of every generated submodule (names no ignore pattern of the generators matches; one empty file)
+SUB_CONTENT = [("m.py", 3), ("data.bin", 9), ("inc/h.py", 2), ("NOTES", 4), ("empty.py", 0)]
+SUB_KINDS = ("manual", "gitfile", "embedded", "gitlink", "real", "real")
+
+
+def plan_submodules(seed):
+    """0-3 further submodules of a generated repository: [name, path, kind]; kind = how the directory comes to be one:
+    `manual` (plain directory + .gitmodules entry), `gitfile` (with a .git file), `embedded` (a repository of its own, not added),
+    `gitlink` (the same, added to the index of the outer repository), `real` (`git submodule add [--name N] URL PATH`).  Drawn from a
+    generator of its own so that the trees of older seeds stay what they were."""
+    import random
+    r = random.Random(seed ^ 0x5AB5)
+    paths = r.sample(SUB_PATHS, r.choice([0, 1, 1, 2, 2, 3]))
+    out = []
+    for i, p in enumerate(paths):
+        name = p if r.random() < 0.5 else r.choice(SUB_ALT_NAMES) + ("" if i == 0 else ".%d" % i)
+        out.append([name, p, r.choice(SUB_KINDS)])
+    return out
+
+
+def build_submodules(top, root, plan, real_ok=True):
+    """create the planned submodules below `root` (a Git repository exists already; `root` is its top when real_ok) and register
+    them in root/.gitmodules — through Git's own writer, so that quoting of names is Git's.  Returns the paths."""
+    upstream = os.path.join(top, "upstream")
+    for name, path, kind in plan:
+        full = os.path.join(root, path)
+        if kind == "real" and real_ok:
+            if not os.path.isdir(upstream):
+                os.makedirs(upstream)
+                _fill(upstream)
+                _git(["init", "-q"], upstream)
+                _git(["add", "-A"], upstream)
+                _git(["commit", "-q", "-m", "upstream"], upstream)
+            r = _git(["-c", "protocol.file.allow=always", "submodule", "add", "-q"] + (["--name", name] if name != path else []) +
+                     ["--", upstream, path], root)
+            if r.returncode != 0:
+                raise RuntimeError("git submodule add failed: %r" % r.stderr[-200:])
+            continue
+        os.makedirs(full)
+        _fill(full)
+        if kind == "gitfile":
+            with open(os.path.join(full, ".git"), "w") as fp:
+                fp.write("gitdir: ../.git/modules/nowhere\n")
+        elif kind in ("embedded", "gitlink", "real"):
+            _git(["init", "-q"], full)
+            _git(["add", "-A"], full)
+            _git(["commit", "-q", "-m", "sub"], full)
+            if kind != "embedded":
+                _git(["add", "--", os.path.relpath(full, root)], root)
+        for k, v in (("path", path), ("url", "https://example.com/%s.git" % kind)):
+            r = _git(["config", "--file", ".gitmodules", "submodule.%s.%s" % (name, k), v], root)
+            if r.returncode != 0:
+                raise RuntimeError("git config failed: %r" % r.stderr[-200:])
+    return [p for _, p, _ in plan]
+
+
+def _fill(d):
+    for rel, size in SUB_CONTENT:
+        os.makedirs(os.path.dirname(os.path.join(d, rel)), exist_ok=True)
+        with open(os.path.join(d, rel), "wb") as fp:
+            fp.write(b"x" * size)
+
+
+def below_any(p, dirs):
+    return any(p.startswith(d + "/") for d in dirs)
+
+
+# -- the root reached through symbolic links ---------------------------------------------------------------------------
+
+VIAS = ("plain", "plain", "anc", "anc", "self", "chain", "ancrel")
+
+
+def linked_root(top, root, via):
+    """an absolute spelling of the directory `root` (below `top`, both without symbolic links) that leads through symbolic links:
+    `anc` an ancestor directory is a link (top/anc -> top), `self` the last component is one (top/self -> root), `chain` a link
+    to a link and the last component (top/chain -> anc, .../self), `ancrel` an ancestor that is a relative link to `.`"""
+    rel = os.path.relpath(root, top)
+    if via == "plain":
+        return root
+
+    def link(name, target):
+        if not os.path.lexists(os.path.join(top, name)):
+            os.symlink(target, os.path.join(top, name))
+    if via == "anc":
+        link("anc", top)
+        return os.path.join(top, "anc", rel)
+    if via == "ancrel":
+        link("ancrel", ".")
+        return os.path.join(top, "ancrel", "ancrel", rel)
+    if via == "self":
+        link("self", root)
+        return os.path.join(top, "self")
+    if via == "chain":
+        link("anc", top)
+        link("chain", "anc")
+        link("self", rel)
+        return os.path.join(top, "chain", "self")
+    raise ValueError(via)
+
+
+def lint_json_files(rootsp, cwd, opts, real_root):
+    """root-relative paths in files[] of `reuse --root ROOT lint --json` run in `cwd` (however the command spells them)"""
+    code, out, exc = cli.run_cli(["--no-multiprocessing", "--root", rootsp] + opts + ["lint", "--json"], cwd)
+    if exc is not None:
+        return ["<lint failed: %s %s>" % (type(exc).__name__, str(exc)[:80])]
+    try:
+        rep, _ = json.JSONDecoder().raw_decode(out[out.index("{"):])
+    except Exception:
+        return ["<lint failed: exit %s %s>" % (code, out.strip()[-80:])]
+    res = []
+    for f in rep["files"]:
+        for b in (cwd, real_root):
+            q = os.path.realpath(os.path.join(b, f["path"]))
+            if (q == real_root or q.startswith(real_root + os.sep)) and os.path.lexists(q):
+                res.append(os.path.relpath(q, real_root))
+                break
+        else:
+            res.append("<outside: %s>" % f["path"])
+    return sorted(res)
+
+
 def in_unignored_untracked_dir(x, ign, tracked):
     """the shape of the known finding: the topmost directory above `x` that holds no tracked file is *not* ignored itself (had
     it been, `git ls-files --directory` would have listed it as one entry and the walk would have pruned it)"""
@@ -389,7 +560,10 @@ class VcsGitStream(Stream):
             "--get-regexp \\.path$` are captured from the real commands (run in the root) and fed to the model; for every path "
             "on disk model = real VCSStrategyGit; the files a pruned walk reaches under the class's verdicts = those reached under "
             "`git check-ignore`'s verdicts (modulo the known finding c03-git-ignored-in-untracked-dir); the model walk on the "
-            "captured outputs = Project.all_files; non-trivial = something ignored and something reached")
+            "captured outputs = Project.all_files; a second family of cases adds 0-3 further submodules and reaches the root through "
+            "symbolic links as in stream `git` (ancestor link, the root a link, link to a link, relative link; absolute / relative): also "
+            "there the class made by Project.from_directory answers like VCSStrategyGit(root), and Project.all_files = the covered files "
+            "under `git check-ignore`'s verdicts and the registered submodule paths; non-trivial = something ignored and something reached")
     IGN = ["*.o", "build/", "/docs/gen.txt", "!keep.o", "tmp*", "src/*.log", "**/cache/", "*.tmp", "sp ace*", "é*", "/lib/"]
     NAMES = ["a.c", "b.o", "keep.o", "gen.txt", "tmp1", "x.log", "y.tmp", "README", "z.py", "sp ace.c", "sp ace.o", "é.o",
              "é.txt", "nl\nx.o", "nl\nx.c", "q\"x.o"]
@@ -404,6 +578,11 @@ class VcsGitStream(Stream):
             yield {"seed": rng.randrange(1 << 30), "flags": rng.choice(["00", "10"]),
                    "rootat": rng.choice(["top", "top", "subdir"]), "cwd": rng.choice(["root", "root", "top", "outside"]),
                    "rootsp": rng.choice(["abs", "rel"])}
+        # further submodules (plan_submodules) and the root reached through symbolic links (linked_root)
+        for i in range(200 if tier == "thorough" else 26):
+            yield {"seed": rng.randrange(1 << 30), "flags": rng.choice(["00", "00", "10"]),
+                   "rootat": rng.choice(["top", "top", "subdir"]), "cwd": rng.choice(["root", "top", "outside"]),
+                   "rootsp": rng.choice(["abs", "rel"]), "xsubs": 1, "via": rng.choice(VIAS)}
 
     def _gen(self, case):
         import random
@@ -461,6 +640,8 @@ class VcsGitStream(Stream):
                 with open(os.path.join(root, ".gitmodules"), "w") as fp:
                     fp.write('[submodule "mod"]\n\tpath = mod\n\turl = https://example.com/mod.git\n')
             _git(["init", "-q"], repo)
+            xsubs = build_submodules(top, root, plan_submodules(case["seed"]) if case.get("xsubs") else [], real_ok=root == repo)
+            subs = subs + xsubs
             allf = []
             for dp, dn, fn in os.walk(repo):
                 dn[:] = [d for d in dn if d != ".git"]
@@ -474,7 +655,8 @@ class VcsGitStream(Stream):
                 elif r < 0.6:
                     _git(["add", "-f", "--", f], repo)
             cwd = {"root": root, "top": repo, "outside": top}[case["cwd"]]
-            rootsp = root if case["rootsp"] == "abs" else os.path.relpath(root, cwd)
+            rootsp = linked_root(top, root, case.get("via", "plain"))
+            rootsp = rootsp if case["rootsp"] == "abs" else os.path.relpath(rootsp, cwd)
             # every path below the root (directories and files), top-down
             paths, kinds = [], {}
             for dp, dn, fn in os.walk(root):
@@ -498,6 +680,9 @@ class VcsGitStream(Stream):
                     answers = [("1" if st.is_ignored(q) else "0") + ("1" if st.is_submodule(q) else "0") for q in spelled]
                     project = Project.from_directory(rootsp, include_submodules=flags[0] == "1", include_meson_subprojects=flags[1] == "1")
                     strategy_name = type(project.vcs_strategy).__name__
+                    # the strategy object the project made for itself answers like the one made here
+                    panswers = [("1" if project.vcs_strategy.is_ignored(q) else "0") + ("1" if project.vcs_strategy.is_submodule(q) else "0")
+                                for q in spelled]
                     got = sorted(os.path.relpath(str(p), rootsp) for p in project.all_files())
             finally:
                 logging.disable(logging.NOTSET)
@@ -509,8 +694,12 @@ class VcsGitStream(Stream):
             # the raw outputs, captured from the real commands started in the root, with the user's configuration
             raw1 = _git(["ls-files", "--exclude-standard", "--ignored", "--others", "--directory", "--no-empty-directory", "-z"],
                         root, global_config=gconf).stdout.decode("utf-8")
-            raw2 = _git(["config", "-z", "--file", ".gitmodules", "--get-regexp", r"\.path$"], root, global_config=gconf).stdout.decode("utf-8")
-            r = _git(["check-ignore", "--stdin", "-z"], root, input=("\0".join(paths)).encode(), global_config=gconf)
+            raw2 = _git(["config", "-z", "--file", ".gitmodules", "--get-regexp", GITMODULES_KEY_PATTERN], root, global_config=gconf).stdout.decode("utf-8")
+            # (Git refuses to answer for a path inside a submodule of its index; the generated submodules hold no name an ignore pattern matches)
+            asked = [x for x in paths if not below_any(x, xsubs)]
+            r = _git(["check-ignore", "--stdin", "-z"], root, input=("\0".join(asked)).encode(), global_config=gconf)
+            if r.returncode not in (0, 1):
+                raise RuntimeError("git check-ignore failed: %r" % r.stderr[-200:])
             ignored = sorted(x for x in r.stdout.decode().split("\0") if x)
             tracked = sorted(x for x in _git(["ls-files", "-z"], root).stdout.decode().split("\0") if x)
 
@@ -528,7 +717,7 @@ class VcsGitStream(Stream):
             facts = {"cwd": cwd, "root": rootsp, "raw1": raw1, "raw2": raw2, "queries": spelled, "disk": read(root),
                      "rootname": Path(rootsp).name}
             self._facts[json.dumps(case, sort_keys=True)] = facts
-            return json.dumps({"answers": " ".join(answers), "paths": paths, "kinds": [kinds[p] for p in paths], "ignored": ignored,
+            return json.dumps({"answers": " ".join(answers), "panswers": " ".join(panswers), "paths": paths, "kinds": [kinds[p] for p in paths], "ignored": ignored,
                                "tracked": tracked, "subs": subs, "got": got, "strategy": strategy_name, "facts": facts})
 
     def model_lines(self, case):
@@ -571,11 +760,20 @@ class VcsGitStream(Stream):
             return "vcsgit-strategy: a directory inside a Git repository (root %r, process in %r) gets %s" % (r["facts"]["root"], r["facts"]["cwd"], r["strategy"])
         answers = dict(zip(r["paths"], r["answers"].split(" ") if r["answers"] else []))
         ign = set(r["ignored"])
+        if r.get("panswers", r["answers"]) != r["answers"]:
+            pa = dict(zip(r["paths"], r["panswers"].split(" ")))
+            d = [p for p in r["paths"] if pa[p] != answers[p]]
+            # judged below through the files Project.all_files yields; said here when nothing else fails
+            differs = ("vcsgit-project-strategy-differs: root %r, process in %r: the strategy object of Project.from_directory answers %s "
+                       "for %r, VCSStrategyGit(root) answers %s (is_ignored, is_submodule)" % (r["facts"]["root"], r["facts"]["cwd"], pa[d[0]], d[0], answers[d[0]]))
+        else:
+            differs = None
         by_class = self._reach(r["paths"], r["kinds"], lambda p: answers[p][0] == "1")
         by_git = self._reach(r["paths"], r["kinds"], lambda p: p in ign)
         if by_class != by_git:
             a, b = set(by_class), set(by_git)
-            self._last = (sorted(a - b), sorted(b - a), r)
+            # kept per case: classify() is asked after all cases have been judged
+            self.__dict__.setdefault("_seen", {})[json.dumps(case, sort_keys=True)] = (sorted(a - b), sorted(b - a), r)
             return ("vcsgit-reach-differs: root %r, process in %r: under VCSStrategyGit.is_ignored a pruned walk reaches %s although `git "
                     "check-ignore` calls them (or a directory above them) ignored, and misses %s which it does not"
                     % (r["facts"]["root"], r["facts"]["cwd"], sorted(a - b), sorted(b - a)))
@@ -584,11 +782,26 @@ class VcsGitStream(Stream):
             if (answers[p][1] == "1") != want:
                 return "vcsgit-submodule-differs: root %r, process in %r: is_submodule(%r) is %s, .gitmodules lists %s" % (
                     r["facts"]["root"], r["facts"]["cwd"], p, answers[p][1] == "1", r["subs"])
-        return None
+        # the files the project examines = the covered files under Git's own verdicts and the registered submodules
+        from c03 import spec_covered
+
+        def fix(ch):
+            return [(n, ("d", fix(node[1])) if node[0] == "d" else tuple(node)) for n, node in ch]
+        want = sorted(spec_covered(fix(r["facts"]["disk"]), case["flags"], frozenset(r["ignored"]), frozenset(r["subs"])))
+        if r["got"] != want:
+            a, b = set(r["got"]), set(want)
+            self.__dict__.setdefault("_seen", {})[json.dumps(case, sort_keys=True)] = (sorted(a - b), sorted(b - a), r)
+            return ("vcsgit-covered-set-differs: root %r, process in %r, submodules %s%s: Project.all_files examines %s although excluded / ignored, "
+                    "skips the covered %s" % (r["facts"]["root"], r["facts"]["cwd"], r["subs"], "" if case["flags"][0] == "0" else " (included)",
+                                              sorted(a - b), sorted(b - a)))
+        return differs
 
     def classify(self, case, failure):
-        if failure.startswith("vcsgit-reach-differs") and failure.rstrip().endswith("misses [] which it does not"):
-            extra, _, r = self._last
+        if (failure.startswith("vcsgit-reach-differs") and failure.rstrip().endswith("misses [] which it does not")) or (
+                failure.startswith("vcsgit-covered-set-differs") and failure.rstrip().endswith("skips the covered []")):
+            if json.dumps(case, sort_keys=True) not in getattr(self, "_seen", {}):
+                return None
+            extra, _, r = self._seen[json.dumps(case, sort_keys=True)]
             ign, tracked = set(r["ignored"]), r["tracked"]
 
             if extra and all((x in ign or any(x.startswith(i + "/") for i in ign)) and in_unignored_untracked_dir(x, ign, tracked) for x in extra):
@@ -604,7 +817,8 @@ class VcsGitStream(Stream):
     def show(self, case):
         t, ign_root, ign_sub, uign, _ = self._gen(case)
         return {"tree": t, "gitignore": ign_root, "src/.gitignore": ign_sub, "user_ignore_file": uign,
-                **{k: case[k] for k in ("flags", "rootat", "cwd", "rootsp")}}
+                **{k: case[k] for k in ("flags", "rootat", "cwd", "rootsp", "via") if k in case},
+                **({"further_submodules [name, path, kind]": plan_submodules(case["seed"])} if case.get("xsubs") else {})}
 
 
 # --------------------------------------------------------------------------
